@@ -4,7 +4,7 @@
     Model: Dpos/Lib.v (libStatus/Status/node, after the repairs F9, F21, F22), Dpos/Protocol.v. *)
 From Coq Require Import ZArith List Bool.
 From Verif Require Import Dpos.Lib Dpos.LibProofs Dpos.LibOnMain Dpos.LibQuorum Dpos.LibQuorumHist Dpos.LibRestart
-  Dpos.Protocol Dpos.ProtocolProofs.
+  Dpos.Protocol Dpos.ProtocolInv Dpos.ProtocolProofs.
 Import ListNotations.
 Open Scope Z_scope.
 
@@ -54,6 +54,18 @@ Theorem C08_proposals_on_main_chain : forall size self evs,
   Forall (fun c => onm (nd_main nd) (c_bi c)) (ls_confirms (st_ls (nd_st nd))).
 Proof. exact proposals_on_main_chain. Qed.
 Print Assumptions C08_proposals_on_main_chain.
+
+(** One node never reports irreversible blocks on conflicting branches: an earlier LIB is still
+    on the main chain, at or below the later LIB, after any further history. *)
+Theorem C08_lib_advances_on_one_branch : forall size self evs1 evs2,
+  Forall ev_ok (evs1 ++ evs2) ->
+  let nd1 := run (init_node size self) evs1 in
+  let nd2 := run (init_node size self) (evs1 ++ evs2) in
+  b_id (ls_lib (st_ls (nd_st nd1))) <> -1 ->
+  (exists m, main_at nd2 (lib_no nd1) = Some m /\ k_id m = b_id (ls_lib (st_ls (nd_st nd1)))) /\
+  lib_no nd1 <= lib_no nd2.
+Proof. exact lib_advances_on_one_branch. Qed.
+Print Assumptions C08_lib_advances_on_one_branch.
 
 (** calcLIB: at least n' - (n'-1)/3 of the n' proposals are at or above the computed LIB. *)
 Theorem C08_lib_supported_by_two_thirds : forall p l,
@@ -128,6 +140,25 @@ Theorem C08_restart_equals_online_refuted :
     sort_entries (prpsd_obs (ls_prpsd (st_ls (nd_st nd)))).
 Proof. exact restart_equals_online_refuted. Qed.
 Print Assumptions C08_restart_equals_online_refuted.
+
+(** What does hold globally: in every world reachable under the protocol rules, with any number
+    of Byzantine producers and any delivery schedule, every node's LIB is on its own main chain
+    (two nodes conflict only if their main chains diverge below a LIB). *)
+Theorem C08_protocol_lib_on_main_chain : forall n byz evs w i nd,
+  prun (init_world n byz) evs = Some w -> zget (w_nodes w) i = Some nd -> lib_on_main nd = true.
+Proof. exact protocol_lib_on_main_chain. Qed.
+Print Assumptions C08_protocol_lib_on_main_chain.
+
+(** agreement_partial: if correct node j's main chain has not diverged from node i's below i's
+    LIB, both LIBs lie on j's main chain (one branch). *)
+Theorem C08_agreement_partial : forall n byz evs w i j ndi ndj,
+  prun (init_world n byz) evs = Some w ->
+  zget (w_nodes w) i = Some ndi -> zget (w_nodes w) j = Some ndj ->
+  b_id (ls_lib (st_ls (nd_st ndi))) <> -1 -> b_id (ls_lib (st_ls (nd_st ndj))) <> -1 ->
+  main_at ndj (lib_no ndi) = main_at ndi (lib_no ndi) ->
+  onm (nd_main ndj) (ls_lib (st_ls (nd_st ndi))) /\ onm (nd_main ndj) (ls_lib (st_ls (nd_st ndj))).
+Proof. exact agreement_partial. Qed.
+Print Assumptions C08_agreement_partial.
 
 (** The global agreement clause is false of the protocol as implemented: one Byzantine
     producer out of four (f < n/3) and an adversarial schedule make two correct nodes
